@@ -18,7 +18,7 @@ pub enum Ctor {
     FromU64(u64),
     /// JitterRng::new_with_timer over raw_readings(salt, len) (+ `stuck_run` consecutive stuck
     /// measurements starting at reading 5); rounds set right after if Some
-    Jitter { salt: u64, len: usize, rounds: Option<u8>, stuck_run: usize },
+    Jitter { salt: u64, len: usize, rounds: Option<u8>, stuck_run: usize, overrides: Vec<(usize, u64)> },
 }
 
 #[derive(Clone, Debug, PartialEq, Eq, PartialOrd, Ord)]
@@ -33,7 +33,7 @@ impl Inst {
         let c = match &self.ctor {
             Ctor::FromSeed(s) => json!({"from_seed": hex(s)}),
             Ctor::FromU64(x) => json!({"seed_from_u64": x}),
-            Ctor::Jitter { salt, len, rounds, stuck_run } => json!({"jitter": {"salt": salt, "len": len, "rounds": rounds, "stuck_run": stuck_run}}),
+            Ctor::Jitter { salt, len, rounds, stuck_run, overrides } => json!({"jitter": {"salt": salt, "len": len, "rounds": rounds, "stuck_run": stuck_run, "overrides": overrides}}),
         };
         json!({"type": self.ty, "ctor": c, "ops": ops_json(&self.ops)})
     }
@@ -45,7 +45,7 @@ impl Inst {
         } else if let Some(x) = c.get("seed_from_u64").and_then(|x| x.as_u64()) {
             Ctor::FromU64(x)
         } else if let Some(j) = c.get("jitter") {
-            Ctor::Jitter { salt: j.get("salt")?.as_u64()?, len: j.get("len")?.as_u64()? as usize, rounds: j.get("rounds").and_then(|r| r.as_u64()).map(|r| r as u8), stuck_run: j.get("stuck_run").and_then(|r| r.as_u64()).unwrap_or(0) as usize }
+            Ctor::Jitter { salt: j.get("salt")?.as_u64()?, len: j.get("len")?.as_u64()? as usize, rounds: j.get("rounds").and_then(|r| r.as_u64()).map(|r| r as u8), stuck_run: j.get("stuck_run").and_then(|r| r.as_u64()).unwrap_or(0) as usize, overrides: j.get("overrides").and_then(|o| o.as_array()).map(|a| a.iter().filter_map(|p| Some((p.get(0)?.as_u64()? as usize, p.get(1)?.as_u64()?))).collect()).unwrap_or_default() }
         } else {
             return None;
         };
@@ -62,9 +62,14 @@ pub fn construct(reg: &dyn Registry, i: &Inst) -> Box<dyn Gen> {
     match &i.ctor {
         Ctor::FromSeed(s) => reg.get(&i.ty).expect("type").from_seed(s),
         Ctor::FromU64(x) => reg.get(&i.ty).expect("type").seed_from_u64(*x),
-        Ctor::Jitter { salt, len, rounds, stuck_run } => {
+        Ctor::Jitter { salt, len, rounds, stuck_run, overrides } => {
             let base = jitter_env::raw_readings(*salt, *len);
-            let readings = if *stuck_run > 0 { jitter_env::with_stuck_run(&base, 5, *stuck_run, jitter_env::Dev::Repeat3) } else { base };
+            let mut readings = if *stuck_run > 0 { jitter_env::with_stuck_run(&base, 5, *stuck_run, jitter_env::Dev::Repeat3) } else { base };
+            for &(i, v) in overrides {
+                if i < readings.len() {
+                    readings[i] = v;
+                }
+            }
             let mut g = reg.jitter(TimerScript::new(readings));
             if let Some(r) = rounds {
                 g.jitter().unwrap().set_rounds(*r);
@@ -301,8 +306,8 @@ pub fn run(reg: &dyn Registry, ctx: &Ctx) -> Outcome {
         configs.push(vec![Inst { ty: small.into(), ctor: Ctor::FromSeed(vec![0u8; s.info().seed_len]), ops: vec![Op::U64, Op::U64] }, Inst { ty: large.into(), ctor: Ctor::FromSeed(vec![0u8; l.info().seed_len]), ops: vec![Op::U64, Op::U64] }]);
     }
     // JitterRng with scripted timers: two instances; one runs test_timer first
-    let jit = |salt: u64, len: usize, rounds: Option<u8>, ops: Vec<Op>| Inst { ty: "JitterRng".into(), ctor: Ctor::Jitter { salt, len, rounds, stuck_run: 0 }, ops };
-    let jit_stuck = |salt: u64, len: usize, rounds: Option<u8>, stuck_run: usize, ops: Vec<Op>| Inst { ty: "JitterRng".into(), ctor: Ctor::Jitter { salt, len, rounds, stuck_run }, ops };
+    let jit = |salt: u64, len: usize, rounds: Option<u8>, ops: Vec<Op>| Inst { ty: "JitterRng".into(), ctor: Ctor::Jitter { salt, len, rounds, stuck_run: 0, overrides: vec![] }, ops };
+    let jit_stuck = |salt: u64, len: usize, rounds: Option<u8>, stuck_run: usize, ops: Vec<Op>| Inst { ty: "JitterRng".into(), ctor: Ctor::Jitter { salt, len, rounds, stuck_run, overrides: vec![] }, ops };
     // one instance sees a long run of stuck measurements, the other an ordinary single one
     for k in [40usize, 140, 300, 1100] {
         configs.push(vec![jit_stuck(7, 3 * k + 400, Some(2), k, vec![Op::U64, Op::U32]), jit_stuck(8, 400, Some(2), 1, vec![Op::U64, Op::U64])]);
@@ -311,6 +316,31 @@ pub fn run(reg: &dyn Registry, ctx: &Ctx) -> Outcome {
     configs.push(vec![jit(3, 1900, None, vec![Op::TestTimer, Op::TimerStats(true)]), jit(4, 600, None, vec![Op::U64, Op::U32])]);
     configs.push(vec![jit(5, 1900, None, vec![Op::TestTimer, Op::SetRounds(2)]), jit(5, 1900, None, vec![Op::TestTimer, Op::TimerStats(false)])]);
     configs.push(vec![jit(6, 600, None, vec![Op::U64, Op::U32]), Inst { ty: "Hc128Rng".into(), ctor: Ctor::FromSeed(vec![0u8; 32]), ops: vec![Op::U64, Op::Fill(5)] }]);
+    // arithmetic coincidences between the measurements of two instances: instance B's first probe
+    // deltas are tied to the last delta L and last second difference L2 that instance A's collection
+    // leaves behind (a stuck-test history kept outside the per-collection state would connect them)
+    {
+        let a_readings = jitter_env::raw_readings(21, 200);
+        // rounds 1: prime r0; priming measurement probe r2; measured probe r5 (one collection = 7 readings)
+        let d_prime = a_readings[2].wrapping_sub(a_readings[0]);
+        let l = a_readings[5].wrapping_sub(a_readings[2]);
+        let l2 = d_prime.wrapping_sub(l); // last_delta2 = previous delta - last delta
+        let b_base = jitter_env::raw_readings(22, 200);
+        let mk_b = |d0: u64, d1: Option<u64>| -> Inst {
+            let mut ov = vec![(2usize, b_base[0].wrapping_add(d0))];
+            if let Some(d1) = d1 {
+                ov.push((5, b_base[0].wrapping_add(d0).wrapping_add(d1)));
+            }
+            Inst { ty: "JitterRng".into(), ctor: Ctor::Jitter { salt: 22, len: 200, rounds: Some(1), stuck_run: 0, overrides: ov }, ops: vec![Op::U64, Op::U64] }
+        };
+        let a = jit(21, 200, Some(1), vec![Op::U64, Op::U32]);
+        // L == d0 ; L - d0 == L2 ; L == 2*d0 - d1
+        configs.push(vec![a.clone(), mk_b(l, None)]);
+        configs.push(vec![a.clone(), mk_b(l.wrapping_sub(l2), None)]);
+        let d0 = 1500u64;
+        configs.push(vec![a.clone(), mk_b(d0, Some((2 * d0).wrapping_sub(l)))]);
+        configs.push(vec![a, mk_b(l, Some(l))]);
+    }
     // three instances for representative types
     for name in ["Xoshiro256PlusPlus", "XorShiftRng", "Hc128Rng", "IsaacRng", "Isaac64Rng", "Xoroshiro64Star"] {
         let ty = reg.get(name).unwrap();
